@@ -111,6 +111,9 @@ structure State where
   trainRf : Bool := true
   trainDilation : Bool := true
   discreteCost : Bool := false
+  /-- `sample_alpha_none` detaches the coefficients it keeps (the tree after the fix); `false` is
+  the earlier tree, where they stayed attached to the graph of the forward that sampled them -/
+  detachOnNone : Bool := true
 
 inductive Op where
   | nasOnly | netOnly | netAndNas
@@ -190,6 +193,7 @@ def step (s : State) : Op → State
     let r := reached s
     { s with qs := s.qs.mapIdx fun j q =>
         if r.contains j && q.sampler != .none then { q with thetaGraph := rgAt s.ts q.alphaT }
+        else if r.contains j && s.detachOnNone then { q with thetaGraph := false }
         else q }
 
 def run (s : State) (ops : List Op) : State := ops.foldl step s
@@ -216,7 +220,7 @@ def staleGraph (r : List Nat) (qs : List Qtz) (j : Nat) : Bool :=
 /-- `backward()` raises "Trying to backward through the graph a second time" -/
 def bwdError (s : State) : Bool :=
   let r := reached s
-  (List.range s.qs.length).any (staleGraph r s.qs)
+  !s.detachOnNone && (List.range s.qs.length).any (staleGraph r s.qs)
 
 /-- `.grad` of one tensor after `forward + backward(loss + cost)` from state `s` -/
 def gradOfR (r : List Nat) (qs : List Qtz) (t : Tensor) : Grad :=
